@@ -134,8 +134,27 @@ def serOutJson (norm : Bool) : Out Val → Json
   | .raise e => Json.mkObj [("o", "raise"), ("exc", jstr e)]
   | .unmodelled w => Json.mkObj [("o", "unmodelled"), ("why", jstr w)]
 
-/-- the concrete hooks the harness attaches (same functions in harness/props/c05.py: `HOOKS`) -/
+/-- what the harness' value-dependent hook 13 computes (harness/props/c13.py: `hook_plain`): every field of every
+    nested instance (no metadata, no hooks), containers as lists, Enum → name, Path → str -/
+partial def serPlainOf : Val → Val
+  | .enum _ n => .str n
+  | .path s => .str s
+  | .list xs => .list (xs.map serPlainOf)
+  | .tuple xs => .list (xs.map serPlainOf)
+  | .set xs => .list (xs.map serPlainOf)
+  | .dict _ ps => .dict false (ps.map fun (k, v) => (serPlainOf k, serPlainOf v))
+  | .inst _ _ fs => .dict false (fs.map fun (n, _, v) => (Val.str n, serPlainOf v))
+  | v => v
+
+/-- the concrete hooks the harness attaches (same functions in harness/props/c05.py: `HOOKS`, and
+    harness/props/c13.py for 13 / 24) -/
 def hookEnv : HEnv
+  | 13, v => .ok (.dict false [(.str ['w'], serPlainOf v)])            -- enc: lambda v: {"w": hook_plain(v)}
+  | 24, v => match v with                                              -- dec: lambda r: deepcopy(r["w"])
+    | .dict _ ps => match lookupKey (.str ['w']) ps with
+      | some x => .ok x
+      | none => .raise "KeyError".toList
+    | _ => .raise "TypeError".toList
   | 10, v => .ok (.dict false [(.str ['w'], v)])                      -- enc: lambda v: {"w": v}
   | 11, v => .ok (.list [v, v])                                        -- enc: lambda v: [v, v]
   | 12, _ => .ok (.str ['H'])                                          -- enc: lambda v: "H"
